@@ -275,7 +275,7 @@ Definition try_use_context (ty : nat) (s : state) : res (option Z) :=
   | None => if fx then Ok None s else Err (Runtime 13) s
   | Some c =>
       if fx && negb (alive c s) then Ok None s
-      else use_ctx_from (S (size (nodes s))) ty c true s
+      else use_ctx_from (S (next s)) ty c true s
   end.
 
 (* signals.rs update_silent with a plain replacement *)
@@ -600,5 +600,320 @@ with propagate_updates (f : nat) (id : nat) (s : state) {struct f} : res unit :=
       if batching s then Ok tt (set_queue (queue s ++ [id]) s)
       else propagate f' [id] s
   end.
+
+(* one-step unfolding lemmas (generated from the definitions above; all by reflexivity) *)
+Lemma exec_S (f' : nat) (en : env) (ss : list stmt) (s : state) :
+  exec (S f') en ss s =
+      match ss with
+      | [] => Ok en s
+      | st :: rest => do en1, s1 <- exec1 f' en st s; exec f' en1 rest s1
+      end.
+Proof. reflexivity. Qed.
+
+Lemma exec_O (en : env) (ss : list stmt) (s : state) : exec O en ss s = Err OutOfFuel s.
+Proof. reflexivity. Qed.
+
+Lemma exec1_S (f' : nat) (en : env) (st : stmt) (s : state) :
+  exec1 (S f') en st s =
+      match st with
+      | SSignal x e =>
+          do v, s1 <- eval en e s;
+          do id, s2 <- create_empty s1;
+          Ok ((x, BNode id) :: en) (register x id (upd id (nd_value (Some v)) s2))
+      | SMemo x b => create_computation f' en x KMemo b s
+      | SSelector x k b => create_computation f' en x (KSel k) b s
+      | SEffect x b => create_computation f' en x KEffect b s
+      | SScope x ss =>
+          (* create_child_scope: a unit signal; ownership boundary, not a tracking boundary *)
+          do id, s1 <- create_empty s;
+          let s2 := register x id (upd id (nd_value (Some 0)) s1) in
+          let prev := current s2 in
+          do _, s3 <- exec f' en ss (set_current (Some id) s2);
+          Ok ((x, BNode id) :: en) (set_current prev s3)
+      | SCurScope x =>
+          match current s with
+          | Some c => Ok ((x, BNode c) :: en) s
+          | None => Err IllFormed s
+          end
+      | SSet x e =>
+          do v, s1 <- eval en e s;
+          match lookup_env x en with
+          | Some (BNode id) =>
+              do _, s2 <- update_silent id v s1;
+              do _, s3 <- propagate_updates f' id s2;
+              Ok en s3
+          | _ => Err IllFormed s1
+          end
+      | SSetSilent x e =>
+          do v, s1 <- eval en e s;
+          match lookup_env x en with
+          | Some (BNode id) => do _, s2 <- update_silent id v s1; Ok en s2
+          | _ => Err IllFormed s1
+          end
+      | SDispose x =>
+          match lookup_env x en with
+          | Some (BNode id) => do _, s1 <- dispose f' id s; Ok en s1
+          | _ => Err IllFormed s
+          end
+      | SBatch ss =>
+          let was := batching s in
+          do _, s1 <- exec f' en ss (emit (EvBatch true) (set_batching true s));
+          if fx && was then Ok en (emit (EvBatch false) s1)
+          else
+            let q := queue s1 in
+            do _, s2 <- propagate f' q (set_queue [] (set_batching false (emit (EvBatch false) s1)));
+            Ok en s2
+      | SUntrack ss | SComponent ss =>
+          let prev := tracker s in
+          do _, s1 <- exec f' en ss (set_tracker None s);
+          Ok en (set_tracker prev s1)
+      | SOnCleanup l ss =>
+          match current s with
+          | None => Ok en (emit (EvReg l) s)
+          | Some c =>
+              if alive c s then Ok en (upd c (fun n => nd_cleanups (n_cleanups n ++ [Cleanup l en ss]) n) (emit (EvReg l) s))
+              else if fx then
+                (* the scope is already disposed: the cleanup runs at once, untracked *)
+                let prevt := tracker s in
+                do _, s1 <- exec f' en ss (emit (EvCleanup l) (set_tracker None (emit (EvReg l) s)));
+                Ok en (set_tracker prevt s1)
+              else Err (Runtime 10) s
+          end
+      | SProvide ty e =>
+          do v, s1 <- eval en e s;
+          do _, s2 <- provide ty v s1;
+          Ok en s2
+      | SUseCtx ty =>
+          do r, s1 <- try_use_context ty s;
+          Ok en (emit (EvCtx ty r) s1)
+      | SRunIn x ss =>
+          match lookup_env x en with
+          | Some (BNode id) =>
+              let prev := current s in
+              do _, s1 <- exec f' en ss (set_current (Some id) s);
+              Ok en (set_current prev s1)
+          | _ => Err IllFormed s
+          end
+      | STrack x =>
+          match lookup_env x en with
+          | Some (BNode id) => Ok en (emit (EvTrack x) (track id s))
+          | _ => Err IllFormed s
+          end
+      | SIf e a b =>
+          do v, s1 <- eval en e s;
+          do _, s2 <- exec f' en (if v =? 0 then b else a) s1;
+          Ok en s2
+      | SCellNew c e =>
+          do v, s1 <- eval en e s;
+          let k := next_cell s1 in
+          Ok ((c, BCell k) :: en) (set_next_cell (S k) (set_cells (insert k v) s1))
+      | SCellSet c e =>
+          do v, s1 <- eval en e s;
+          match lookup_env c en with
+          | Some (BCell k) => Ok en (set_cells (insert k v) s1)
+          | _ => Err IllFormed s1
+          end
+      | SLog e => do v, s1 <- eval en e s; Ok en (emit (EvLog v) s1)
+      end.
+Proof. reflexivity. Qed.
+
+Lemma exec1_O (en : env) (st : stmt) (s : state) : exec1 O en st s = Err OutOfFuel s.
+Proof. reflexivity. Qed.
+
+Lemma run_body_S (f' : nat) (c : clo) (s : state) :
+  run_body (S f') c s =
+      let '(Body on ss ret) := c_body c in
+      let s0 := emit (EvRun (c_name c)) s in
+      let fin (v : Z) (s : state) : res Z :=
+        Ok v (emit (EvEnd (c_name c))
+                (match c_kind c with KEffect => emit (EvEff (c_name c) v) s | _ => s end)) in
+      match on with
+      | None =>
+          do en1, s1 <- exec f' (c_env c) ss s0;
+          do v, s2 <- eval en1 ret s1;
+          fin v s2
+      | Some deps =>
+          let tr := fold_left (fun (r : option state) x =>
+                      match r with
+                      | Some s => match lookup_env x (c_env c) with
+                                  | Some (BNode id) => Some (emit (EvTrack x) (track id s))
+                                  | _ => None
+                                  end
+                      | None => None
+                      end) deps (Some s0) in
+          match tr with
+          | None => Err IllFormed s0
+          | Some s1 =>
+              let prev := tracker s1 in
+              do en1, s2 <- exec f' (c_env c) ss (set_tracker None s1);
+              do v, s3 <- eval en1 ret s2;
+              fin v (set_tracker prev s3)
+          end
+      end.
+Proof. reflexivity. Qed.
+
+Lemma run_body_O (c : clo) (s : state) : run_body O c s = Err OutOfFuel s.
+Proof. reflexivity. Qed.
+
+Lemma create_computation_S (f' : nat) (en : env) (x : nat) (k : ckind) (b : body) (s : state) :
+  create_computation (S f') en x k b s =
+      do id, s1 <- create_empty s;
+      let s2 := register x id s1 in
+      let c := Clo x k en b in
+      let prev := current s2 in
+      let prevt := tracker s2 in
+      do v, s3 <- run_body f' c (set_tracker (Some []) (set_current (Some id) s2));
+      let tracked := match tracker s3 with Some t => t | None => [] end in
+      let s4 := set_current prev (set_tracker prevt s3) in
+      if fx && negb (alive id s4) then
+        (* the computation destroyed itself during its first run *)
+        Ok ((x, BNode id) :: en) s4
+      else
+      do _, s5 <- link id tracked s4;
+      if alive id s5 then
+        Ok ((x, BNode id) :: en)
+           (upd id (fun n => nd_cb (Some c) (nd_value (Some (match k with KEffect => 0 | _ => v end)) n)) s5)
+      else Err (Runtime 4) s5.
+Proof. reflexivity. Qed.
+
+Lemma create_computation_O (en : env) (x : nat) (k : ckind) (b : body) (s : state) : create_computation O en x k b s = Err OutOfFuel s.
+Proof. reflexivity. Qed.
+
+Lemma dispose_S (f' : nat) (id : nat) (s : state) :
+  dispose (S f') id s =
+      do _, s1 <- dispose_children f' id s;
+      match nodes s1 !! id with
+      | None => Ok tt s1
+      | Some this =>
+          let s2 := set_nodes (delete id) s1 in
+          let s3 := foldr (fun d acc => upd d (nd_deps (remove_id id)) acc) s2 (n_dependents this) in
+          let s4 := if fx then foldr (fun d acc => upd d (nd_dependents (remove_id id)) acc) s3 (n_deps this)
+                    else s3 in
+          Ok tt s4
+      end.
+Proof. reflexivity. Qed.
+
+Lemma dispose_O (id : nat) (s : state) : dispose O id s = Err OutOfFuel s.
+Proof. reflexivity. Qed.
+
+Lemma dispose_children_S (f' : nat) (id : nat) (s : state) :
+  dispose_children (S f') id s =
+      match nodes s !! id with
+      | None => Ok tt s
+      | Some nd =>
+          let s1 := upd id (fun n => nd_children [] (nd_cleanups [] n)) s in
+          let prevt := tracker s1 in
+          do _, s2 <- run_cleanups f' (n_cleanups nd) (set_tracker None s1);
+          let s3 := set_tracker prevt s2 in
+          do _, s4 <- dispose_list f' (n_children nd) s3;
+          if alive id s4 then Ok tt (upd id (nd_context []) s4)
+          else if fx then Ok tt s4 else Err (Runtime 11) s4
+      end.
+Proof. reflexivity. Qed.
+
+Lemma dispose_children_O (id : nat) (s : state) : dispose_children O id s = Err OutOfFuel s.
+Proof. reflexivity. Qed.
+
+Lemma run_cleanups_S (f' : nat) (cs : list cleanup) (s : state) :
+  run_cleanups (S f') cs s =
+      match cs with
+      | [] => Ok tt s
+      | c :: r =>
+          do _, s1 <- exec f' (cl_env c) (cl_ss c) (emit (EvCleanup (cl_label c)) s);
+          run_cleanups f' r s1
+      end.
+Proof. reflexivity. Qed.
+
+Lemma run_cleanups_O (cs : list cleanup) (s : state) : run_cleanups O cs s = Err OutOfFuel s.
+Proof. reflexivity. Qed.
+
+Lemma dispose_list_S (f' : nat) (ids : list nat) (s : state) :
+  dispose_list (S f') ids s =
+      match ids with
+      | [] => Ok tt s
+      | i :: r => do _, s1 <- dispose f' i s; dispose_list f' r s1
+      end.
+Proof. reflexivity. Qed.
+
+Lemma dispose_list_O (ids : list nat) (s : state) : dispose_list O ids s = Err OutOfFuel s.
+Proof. reflexivity. Qed.
+
+Lemma run_node_update_S (f' : nat) (n : nat) (s : state) :
+  run_node_update (S f') n s =
+      match nodes s !! n with
+      | None => Err (Runtime 0) s          (* callers check liveness first *)
+      | Some nd =>
+          let s1 := upd n (nd_deps (fun _ => [])) s in
+          do _, s2 <- unlink_deps n (n_deps nd) s1;
+          match n_cb nd, n_value nd with
+          | None, _ => Err (Runtime 7) s2
+          | _, None => Err (Runtime 8) s2
+          | Some c, Some old =>
+              let s3 := upd n (fun x => nd_cb None (nd_value None x)) s2 in
+              do _, s4 <- dispose_children f' n s3;
+              let prev := current s4 in
+              let prevt := tracker s4 in
+              do new, s5 <- run_body f' c (set_tracker (Some []) (set_current (Some n) s4));
+              let changed := negb (eqk (c_kind c) new old) in
+              let value := if changed then (match c_kind c with KEffect => 0 | _ => new end) else old in
+              let tracked := match tracker s5 with Some t => t | None => [] end in
+              let s6 := set_current prev (set_tracker prevt s5) in
+              if fx && negb (alive n s6) then Ok tt s6
+              else
+              do _, s7 <- link n tracked s6;
+              if alive n s7 then
+                let s8 := upd n (fun x => nd_dirty false (nd_cb (Some c) (nd_value (Some value) x))) s7 in
+                if changed then mark_dependents_dirty n s8 else Ok tt s8
+              else Err (Runtime 9) s7
+          end
+      end.
+Proof. reflexivity. Qed.
+
+Lemma run_node_update_O (n : nat) (s : state) : run_node_update O n s = Err OutOfFuel s.
+Proof. reflexivity. Qed.
+
+Lemma loop_S (f' : nat) (order : list nat) (s : state) :
+  loop (S f') order s =
+      match order with
+      | [] => Ok tt s
+      | n :: rest =>
+          match nodes s !! n with
+          | None => loop f' rest s
+          | Some nd =>
+              let s1 := upd n (nd_mark MNone) s in
+              if n_dirty nd then do _, s2 <- run_node_update f' n s1; loop f' rest s2
+              else loop f' rest s1
+          end
+      end.
+Proof. reflexivity. Qed.
+
+Lemma loop_O (order : list nat) (s : state) : loop O order s = Err OutOfFuel s.
+Proof. reflexivity. Qed.
+
+Lemma propagate_S (f' : nat) (starts : list nat) (s : state) :
+  propagate (S f') starts s =
+      let g := S (size (nodes s)) in
+      let r := fold_left (fun (a : res (list nat)) start =>
+                 do buf, s1 <- a;
+                 match dfs g start (s1, buf) with
+                 | None => Err OutOfFuel s1
+                 | Some None => Err Cyclic s1
+                 | Some (Some (s2, buf2)) => do _, s3 <- mark_dependents_dirty start s2; Ok buf2 s3
+                 end) starts (Ok [] s) in
+      do buf, s1 <- r;
+      loop f' (rev buf) s1.
+Proof. reflexivity. Qed.
+
+Lemma propagate_O (starts : list nat) (s : state) : propagate O starts s = Err OutOfFuel s.
+Proof. reflexivity. Qed.
+
+Lemma propagate_updates_S (f' : nat) (id : nat) (s : state) :
+  propagate_updates (S f') id s =
+      if batching s then Ok tt (set_queue (queue s ++ [id]) s)
+      else propagate f' [id] s.
+Proof. reflexivity. Qed.
+
+Lemma propagate_updates_O (id : nat) (s : state) : propagate_updates O id s = Err OutOfFuel s.
+Proof. reflexivity. Qed.
 
 End Runtime.
